@@ -43,7 +43,7 @@ fn c18_grid(tier: Tier) -> Vec<Program> {
                 for checked in [true, false] {
                     for by_key in [true, false] {
                         for fl in [Fl::Sync, Fl::Async] {
-                            for dest in [Dest::Absent, Dest::Existing] {
+                            for dest in [Dest::Absent, Dest::Existing, Dest::OtherFs] {
                                 n += 1;
                                 if len > 100_000 && n % 3 != 0 {
                                     continue;
@@ -87,6 +87,9 @@ fn c18_classify(t: &Trace, st: &mut Stats) -> bool {
             if *dest == Dest::Existing {
                 st.class("destination_exists");
             }
+            if *dest == Dest::OtherFs {
+                st.class("destination_on_another_filesystem");
+            }
             if damaged {
                 st.class("content_damaged_or_missing");
             }
@@ -97,7 +100,7 @@ fn c18_classify(t: &Trace, st: &mut Stats) -> bool {
                 _ => st.class("extraction_io_error"),
             }
             let big = t.prog.blobs.iter().any(|b| b.len >= 1024);
-            nt |= damaged || *dest == Dest::Existing || big;
+            nt |= damaged || *dest != Dest::Absent || big;
         }
     }
     nt
